@@ -193,11 +193,11 @@ func AddStandardFilters(fd FilterDictionary) { //nolint: gocyclo
 		if start < 0 {
 			start = len(ss) + start
 		}
-		if start < 0 {
+		if start < 0 || start > len(ss) || n < 0 {
 			return ""
 		}
 		end := start + n
-		if end > len(ss) {
+		if end > len(ss) || end < start {
 			end = len(ss)
 		}
 		return string(ss[start:end])
